@@ -318,3 +318,5 @@ def run(ctx):
     ctx.run_rule("R5.4", "subprocess exit mapping: Signaled/Undetermined never become Code; Exited/Other carry their own payload [E-TABLE]", r5_4, floor=4)
     ctx.run_rule("R5.4b", "SubprocessRunner::run: Timeout only on the kind==TimedOut edge; other read errors yield no exit code [E-PATH]", r5_4b, floor=2)
     ctx.run_rule("R5.7", "the bash wrapper handles no signal (its handler is armed for EXIT only): death by signal stays visible as Signaled => Unknown [template analyzer]", r5_7, floor=1)
+    from . import c13
+    ctx.run_rule("R5.8", "single-script execution: test cases that disagree on output_stream are rejected by compile_testcase - the stream the script captures is the stream validation reads (shared with C13 R13.11) [E-PATH]", lambda c: c13.consistency_gates(c, ["output_stream"]), floor=1)
